@@ -72,20 +72,48 @@ def explain (s : State) : Obs → List State
   | .workerHandoff id => opt ((workerWith s (· == .handoff id)).bind (fun w => step cfg s (.workerHandoff w)))
   | .workerAbandon id => opt ((workerWith s (· == .handoff id)).bind (fun w => step cfg s (.workerAbandon w)))
   | .workerExit => opt ((workerWith s (· == .idle)).bind (fun w => step cfg s (.workerExit w)))
-  | .writerWrite _ ok => opt (step cfg s (.writerWrite ok))
+  | .writerWrite id ok =>
+    -- the envelope the writer is writing carries this id
+    match s.writer with
+    | .writing ev =>
+      let evId := match ev with | .body i | .trailer i | .reset i | .unaryReply i => i
+      if evId = id then opt (step cfg s (.writerWrite ok)) else []
+    | _ => []
   | .writerExit => opt (step cfg s .writerExit)
   | .streamCancel id => opt ((streamIdx s id).bind (fun x => step cfg s (.rlCancelStream x)))
   | .fwdEnter id => opt ((streamIdx s id).bind (fun x => step cfg s (.rlForwardEnter x)))
   | .fwdSent _ => opt (step cfg s .rlForwardSent)
-  | .fwdDropped _ => opt (step cfg s .rlForwardDropped)
+  | .fwdDropped _ =>
+    -- the target's context is done: by a reset, the wait loop, … or by the handler's own deferred cancel(),
+    -- which has no event of its own
+    match step cfg s .rlForwardDropped with
+    | some s' => [s']
+    | none => match s.rl with
+      | .forwarding x _ => opt (stepL s [.hCancel x, .rlForwardDropped])
+      | _ => []
   | .fwdAbort _ c => opt (step cfg s (.rlForwardAbort c))
   | .reset _ => opt (step cfg s .rlResetEnter)
   | .resetHandoff _ => opt (step cfg s .rlResetHandoff)
   | .register _ => opt (step cfg s .rlOpen)
   | .hRecv id => opt ((handlerIdx s id).bind (fun x => step cfg s (.hRecv x)))
-  | .hSent id => opt ((handlerIdx s id).bind (fun x => step cfg s (.hSend x)))
+  | .hSent id =>
+    -- the hand-over to the writer made by SendMsg/SendHeader while the handler runs, or by SendTrailer after it returned
+    match handlerIdx s id with
+    | some x =>
+      match s.streams[x]? with
+      | some st => if st.hpc = .returned then opt (step cfg s (.hTrailer x)) else opt (step cfg s (.hSend x))
+      | none => []
+    | none => []
   | .hReturned id => opt ((handlerIdx s id).bind (fun x => step cfg s (.hReturn x)))
-  | .trailer id ok => opt ((handlerIdx s id).bind (fun x => step cfg s (if ok then .hTrailer x else .hTrailerFail x)))
+  | .trailer id ok =>
+    match handlerIdx s id with
+    | some x =>
+      match s.streams[x]? with
+      | some st =>
+        if ok then (if st.hpc = .trailed then [s] else opt (step cfg s (.hTrailer x)))
+        else opt (step cfg s (.hTrailerFail x))
+      | none => []
+    | none => []
   | .unregister id =>
     match handlerIdx s id with
     | some x => opt (match step cfg s (.hUnregister x) with
@@ -99,6 +127,23 @@ def explain (s : State) : Obs → List State
   | .waitPick => (List.range s.streams.length).filterMap (fun x => step cfg s (.waitPick x))
   | .waitTaken => opt (step cfg s .waitDone)
   | .waitDone => opt (step cfg s .waitFinish)
+
+/-- the id of the envelope a hand-over to the writer carries (the producer's side of the rendezvous) -/
+def Obs.carries : Obs → Option Nat
+  | .workerHandoff id | .hSent id | .resetHandoff id => some id
+  | _ => none
+
+/-- the writer goroutine logs its writes in the order it performs them, so the next hand-over the
+    model takes must be the one whose write the writer logs next -/
+def nextWrite : List Obs → Option Nat
+  | [] => none
+  | .writerWrite id _ :: _ => some id
+  | _ :: t => nextWrite t
+
+def admissible (q : List Obs) (o : Obs) : Bool :=
+  match o.carries, nextWrite q with
+  | some id, some id' => id == id'
+  | _, _ => true
 
 def window : Nat := 10
 
@@ -131,7 +176,7 @@ def search : Nat → Nat → State → List Obs → Nat → (Option State × Nat
             match search depth (nodes - 1) s' q' (k + 1) with
             | (some r, n, b) => (some r, n, b)
             | (none, n, b) => trySucc rest n (max best b)
-        match trySucc (explain s o) nodes best with
+        match trySucc (if admissible q o then explain s o else []) nodes best with
         | (some r, n, b) => (some r, n, b)
         | (none, n, b) => tryAll more n b
     tryAll (choices q [] window []) nodes k
@@ -144,5 +189,15 @@ def verdict (obs : List Obs) : String :=
     s!"accept:streams={live}"
   | (none, 0, _) => "inconclusive"
   | (none, _, best) => s!"reject@{best}"
+
+/-- greedy replay for diagnosis: where does the first-choice explanation get stuck, and in which state -/
+def debugGreedy : Nat → State → List Obs → Nat → String
+  | 0, _, _, k => s!"fuel@{k}"
+  | _, _, [], k => s!"done@{k}"
+  | fuel + 1, s, q, k =>
+    let cs := choices q [] window []
+    match cs.findSome? (fun (o, q') => if admissible q o then (explain s o).head?.map (fun s' => (s', q')) else none) with
+    | some (s', q') => debugGreedy fuel s' q' (k + 1)
+    | none => String.ofList ((s!"stuck@{k} next={repr (q.take 4)} rl={repr s.rl} writer={repr s.writer} mu={s.muHeld} conn={s.connDone} workers={repr s.workers} streams={repr (s.streams.map (fun st => (st.id, st.registered, st.hpc, st.queue.isSome, st.ctxDone)))} wait={repr s.wait}").toList.filter (· != '\n'))
 
 end Goat.Drv.SrvReplay
